@@ -4,7 +4,12 @@ Pipeline: (T1) regenerate coq/Gen/GenBd.v from the parser / lexer / helper sourc
 Proofs/BdProofs.v and compile every Props/C19/<theorem>.v, audit, then (T2) generate BD programs from the grammar of
 docs/usage/elf2sb.md restricted to the supported subset, run the real BDParser + BootImageV21.load_from_config on them,
 apply the independent specification oracle of this file to SPSDK's own outputs, run the Coq model on the same ASTs and
-compare every observable exactly."""
+compare every observable exactly.
+
+Eight defects found by this check (C19-F1..F8: size-suffix masks and precedence, defined(), && / || operand value, blob
+byte order, missing call / reset handlers, greedy quoted literals, section options silently dropped, encrypt counter) were
+repaired in /repo (fix: commits 0edf534 ea35e31 c751eb0 80cfe5f dd776ba b6a16b5 55fcaa0 7913662).  The streams that
+exercise them stay: each oracle reports the defect class in the signature ("bd:<class>:<item>") if one returns."""
 import json
 import os
 import shutil
@@ -16,44 +21,9 @@ import regen_c19
 
 PID = "C19"
 sys.set_int_max_str_digits(0)
-# theorems about tables / model that hold whether or not the listed findings are repaired
-THEOREMS = ["expr_sem_except_known", "bool_sem_except_known", "division_is_c_division_on_naturals", "prec_table_documented",
-            "every_operator_production_has_a_row", "print_parse", "consts_resolve", "stmt_sem_except_known",
-            "stmt_never_mistranslated", "keyblob_resolves", "unsupported_refused_except_known", "section_options_refuted", "exactly_one_command",
-            "blob_load_refuted"]
-# findings whose state is visible in the extracted tables: (refutation theorem + its proof file) while the defect is in the
-# source, (full theorem from tools/props/c19_alt/, compiled in coq/Cases) once the tables show the repair
-TABLE_FINDINGS = {
-    "C19-F1": ("size_suffix_refuted", "Proofs/BdF1Proofs.vo", "expr_sem_full"),
-    "C19-F2": ("defined_refuted", "Proofs/BdF2Proofs.vo", "defined_full"),
-    "C19-F3": ("logical_value_refuted", "Proofs/BdF3Proofs.vo", "logical_value_full"),
-    "C19-F5": ("reset_call_refuted", "Proofs/BdF5Proofs.vo", "reset_call_full"),
-    "C19-F8": ("encrypt_counter_refuted", "Proofs/BdF8Proofs.vo", "encrypt_counter_full"),
-}
-
-
-def repaired_findings(t):
-    """Which table-visible findings are repaired in the source the tables were extracted from."""
-    lv = {}
-    for i, (_, toks) in enumerate(t["prec"]):
-        for tok in toks:
-            lv[tok] = i + 1
-    rep = set()
-    if dict(t["sizes"]) == {"w": 0xFFFFFFFF, "h": 0xFFFF, "b": 0xFF} and lv.get("PERIOD", 0) > max(lv.get(x, 0) for x in ("TIMES", "DIVIDE", "MOD")):
-        rep.add("C19-F1")
-    if t["defined_by_name"]:
-        rep.add("C19-F2")
-    rows = {r[0]: r[1] for r in t["bool_rows"]}
-    if rows.get("&&") == "AndBool" and rows.get("||") == "OrBool":
-        rep.add("C19-F3")
-    cmds = dict(t["cmds"])
-    if cmds.get("reset") == "_reset" and cmds.get("call") == "_call":
-        rep.add("C19-F5")
-    if t["encrypt_counter_from_address"]:
-        rep.add("C19-F8")
-    return rep
-
-
+THEOREMS = ["expr_sem", "bool_sem", "division_is_c_division_on_naturals", "prec_table_documented",
+            "every_operator_production_has_a_row", "print_parse", "quoted_literals_separate", "consts_resolve", "keyblob_resolves",
+            "stmt_sem", "stmt_never_mistranslated", "exactly_one_command", "unsupported_refused", "section_options_refused"]
 WORK = os.path.join(vlib.WORK, PID)
 
 # ======================================================================================================
@@ -205,8 +175,8 @@ def feats_bexpr(b, fenv):
 # ------------------------------------------------------------------------------------------------------
 # printers: AST -> BD text
 # ------------------------------------------------------------------------------------------------------
-# the lexer's '.*' / ".*" are greedy (C19-F6): outside the stream that exercises this, a line carries at most one quoted literal
-CHAR_BUDGET = [1]
+# quoted literals end at the first closing quote, so a line may carry several of them (C19-F6 if the greedy rules return)
+CHAR_BUDGET = [99]
 
 
 def lit_text(n, fmt, rng=None):
@@ -245,13 +215,13 @@ def print_expr(e, m=1, mode="min", rng=None):
         return f"({body})" if need or (mode == "rand" and rng.random() < 0.25) else body
     elif t == "size":
         # the lexer recognises the suffix only directly behind a digit / hex letter and a period
-        # and sly gives PERIOD the lowest precedence (C19-F1): inside a larger expression the suffixed literal is parenthesised,
-        # so that the text means the same whether the suffix binds tightest (elftosb) or loosest (SPSDK)
+        # the suffix binds tighter than every binary operator (elftosb convention; PERIOD row of the precedence tuple), so the
+        # suffixed literal is an atom; were the row lost again (C19-F1), `1 + 2.b` would read as `(1 + 2).b`
         inner = e[1]
         assert inner[0] == "lit"
         fmt = inner[2] if len(inner) > 2 and inner[2] in "dx" else "d"
         body = f"{lit_text(inner[1], fmt, None)}.{e[2]}"
-        return body if (m <= 1 and mode != "full") else f"({body})"
+        return f"({body})" if (mode == "full" or (mode == "rand" and rng.random() < 0.2)) else body
     else:
         raise ValueError(e)
     if mode == "rand" and rng.random() < 0.15:
@@ -419,7 +389,10 @@ def coq_program(p):
     files = "[" + "; ".join(f"({coq_str(n)}, {coq_ln(d)})" for n, d in sorted(p["files"].items())) + "]"
     ext = "[" + "; ".join(coq_str(x) for x in p["extern"]) + "]"
     blocks = "[" + "; ".join(coq_block(b) for b in p["blocks"]) + "]"
-    secs = "[" + "; ".join(f"({coq_expr(i)}, [" + "; ".join(coq_stmt(s) for s in st) + "])" for i, st in p["sections"]) + "]"
+    so = p.get("section_opts", {})
+    secs = "[" + "; ".join(
+        f"{{| sec_id := {coq_expr(i)}; sec_opts := [" + "; ".join(f'("{k}"%string, {coq_cexpr(c)})' for k, c in (so.get(si) or [])) +
+        "]; sec_stmts := [" + "; ".join(coq_stmt(s) for s in st) + "] |}" for si, (i, st) in enumerate(p["sections"])) + "]"
     return f"run_program {{| p_extern := {ext}; p_files := {files}; p_blocks := {blocks}; p_sections := {secs} |}}"
 
 
@@ -523,10 +496,10 @@ def program_text(p, rng, mode="min", layout="lines"):
     """layout 'lines': one definition / statement per line; 'packed': several per line (never two quoted literals
     on one line unless p['allow_strings_on_one_line'])."""
     out = []
-    strings_ok = p.get("allow_strings_on_one_line", False)
+    strings_ok = True
 
     def item(fn):
-        CHAR_BUDGET[0] = 99 if strings_ok else 1
+        CHAR_BUDGET[0] = 99
         return fn()
 
     def quoted(txt):
@@ -570,8 +543,10 @@ def program_text(p, rng, mode="min", layout="lines"):
             out.append("}")
         if rng.random() < 0.2:
             out.append(rng.choice(["// comment with \"quotes\" and 1 + 2", "# hash comment", "/* block\n   comment */"]))
-    for i, sts in p["sections"]:
-        out.append(item(lambda: f"section ({pe(i, rng, mode)}) {{"))
+    for si, (i, sts) in enumerate(p["sections"]):
+        so = p.get("section_opts", {}).get(si)
+        sotxt = "" if so is None else ";" + (" " if so else "") + ", ".join(f"{k} = {text_cexpr(c, rng, mode)}" for k, c in so)
+        out.append(item(lambda: f"section ({pe(i, rng, mode)}{sotxt}) {{"))
         emit_defs([item(lambda s_=s_: text_stmt(s_, rng, mode)) for s_ in sts])
         out.append("}")
     return "\n".join(out) + "\n"
@@ -647,7 +622,14 @@ def spec_stmt(s, env, srcs, files, keyblobs):
         if d[0] == "blob":
             data = bytes.fromhex(d[1])
             if m == 4:
-                raise Unspecified("fuse programming from a blob")
+                # fuse / ifr programming from a blob: its little-endian 32-bit words (elftosb; legacy_real_example3.sb)
+                need_u32(addr)
+                if len(data) == 4:
+                    return (10, 0x400, addr, int.from_bytes(data, "little"), 0, None, 4)
+                if len(data) == 8:
+                    w2 = int.from_bytes(data[4:], "little")
+                    return (10, 0x400 | (1 if w2 else 0), addr, int.from_bytes(data[:4], "little"), w2, None, 4)
+                raise Unspecified("fuse programming from a blob that is not one or two words")
         else:
             path = d[1] if d[0] == "file" else srcs.get(d[1])
             if path is None or path not in files:
@@ -731,8 +713,10 @@ def spec_stmt(s, env, srcs, files, keyblobs):
             if path is None or path not in files:
                 raise Refuse("file does not exist")
             data = files[path]
+        elif d[0] == "blob":
+            data = bytes.fromhex(d[1])
         else:
-            raise Unspecified("encrypt of a blob / pattern")
+            raise Refuse("encrypt of a pattern")
         if (kb["end"] & 3) == 3:
             if addr % 16:
                 raise Refuse("encrypted load must be 16-byte aligned")
@@ -823,7 +807,8 @@ def spec_program(p):
             except Unspecified as ex:
                 cmds.append((("unspecified", str(ex)), f))
         sections.append((sid, feats_expr(i, fenv), cmds))
-    res.update(options=options, sources=srcs, keyblobs=keyblobs, sections=sections)
+    res.update(options=options, sources=srcs, keyblobs=keyblobs, sections=sections,
+               section_options=sorted(si for si, so in p.get("section_opts", {}).items() if so))
     return res
 
 
@@ -1210,7 +1195,8 @@ def norm_impl_config(c):
     if c["keyblobs"] is not None:
         kbs = tuple((tuple(i), tuple(norm_dict(d) for d in content) if isinstance(content, list) and content[:1] != ["x"] else ("x",))
                     for i, content in c["keyblobs"])
-    secs = tuple((tuple(s["id"]), tuple(tuple((k, norm_dict(d)) for k, d in cmd) for cmd in s["commands"])) for s in c["sections"])
+    secs = tuple((tuple(s["id"]), tuple(tuple((k, norm_dict(d)) for k, d in cmd) for cmd in s["commands"]), bool(s["options_nonempty"]))
+                 for s in c["sections"])
     return (opts, srcs, kbs, secs)
 
 
@@ -1241,7 +1227,7 @@ def norm_model_config(v):
     opts = None if oo is None else tuple(sorted((e[1][0][1], mv_dval(e[1][1])) for e in oo[1]))
     srcs = None if ss is None else tuple(sorted((e[1][0][1], e[1][1][1]) for e in ss[1]))
     kbs = None if kk is None else tuple((("i", e[1][0][1]), (mv_dict(e[1][1]),)) for e in kk[1])
-    sections = tuple((("i", e[1][0][1]), tuple(((c[1][0][1], mv_dict(c[1][1])),) for c in e[1][1][1])) for e in secs[1])
+    sections = tuple((("i", e[1][0][1]), tuple(((c[1][0][1], mv_dict(c[1][1])),) for c in e[1][1][1]), e[1][2][1] > 0) for e in secs[1])
     return (opts, srcs, kbs, sections)
 
 
@@ -1361,12 +1347,22 @@ def build_streams(tier, rng):
         p["mode"], p["layout"], p["allow_strings_on_one_line"] = "min", "packed", True
         ps.append(p)
     streams["several string definitions on one line"] = ps
-    streams["witnesses of the listed findings"] = finding_witnesses()
+    ps = []
+    for i in range(max(10, n_feat // 2)):
+        p = g.program(())
+        p["mode"], p["layout"] = "min", ["lines", "packed"][i % 2]
+        k = rng.randrange(0, len(p["sections"]))
+        p["section_opts"] = {k: [] if i % 5 == 4 else [(rng.choice(["alignment", "id", "name", "Header_Version"]),
+                                                         rng.choice([("int", ("lit", rng.randrange(0, 64), "d")), ("str", "4.2")]))
+                                                        for _ in range(rng.choice([1, 1, 2, 3]))]}
+        ps.append(p)
+    streams["programs with section options (must be refused)"] = ps
+    streams["witnesses of the eight repaired defects"] = finding_witnesses()
     return streams, g
 
 
 def finding_witnesses():
-    """One fixed program per listed finding (C19-F7 is in UNSUPPORTED), so that every run reproduces each of them."""
+    """One fixed program per repaired defect C19-F1..F8 (F7 is also in UNSUPPORTED): every run checks that none returned."""
     L = lambda n, f="d": ("lit", n, f)       # noqa: E731
     sec0 = lambda sts: [(L(0), sts)]         # noqa: E731
     img = bytes(range(64))
@@ -1384,6 +1380,9 @@ def finding_witnesses():
         {"blocks": [("options", [(1, ("str", "1.0.0")), (2, ("str", "2.0.0"))])], "sections": sec0([]), "allow_strings_on_one_line": True, "layout": "packed"},
         {"blocks": [("options", []), kb], "sections": sec0([("encrypt", L(0), None, ("file", "w_img.bin"), ("addr", L(0x08001400, "x")))]),
          "files": {"w_img.bin": list(img)}, "filedata": {"w_img.bin": img}},
+        {"blocks": [("options", [])], "sections": sec0([("erase_all", None)]), "section_opts": {0: [("a", ("int", L(1)))]}},
+        {"blocks": [("options", [(1, ("int", ("bin", "+", ("size", L(0xA, "x"), "b"), ("size", L(0xB, "x"), "b"))))])], "sections": sec0([])},
+        {"blocks": [("options", [])], "sections": sec0([("load", ("name", "fuse"), ("blob", "8899aabbccddeeff"), ("addr", L(0x01000188, "x")))])},
     ]
     for p in progs:
         p.setdefault("extern", [])
@@ -1534,8 +1533,13 @@ def oracle_program(p, sp, ir):
     for gs, (sid, f, _) in zip(parse["sections"], sp["sections"]):
         if tuple(gs["id"]) != ("i", sid):
             hits.append(("section", f, f"section id {gs['id']} specified {sid}", ("section", parse["sections"].index(gs))))
-        if gs["options_nonempty"]:
-            hits.append(("section", set(), "section options appeared"))
+        if gs["options_nonempty"] != (parse["sections"].index(gs) in sp["section_options"]):
+            hits.append(("section", set(), "section options of the configuration differ from the program"))
+    if sp["section_options"]:
+        # unsupported in SB2.1 command files: must be refused, never dropped silently (C19-F7)
+        if not (isinstance(load, list) and load[:1] == ["e"]):
+            hits.append(("refusal", {"section-options"}, "a section with options was translated (the options were dropped)"))
+        return hits, allf | {"section-options"}
     # commands
     flat = [(si, ci, c, f) for si, (_, _, cmds) in enumerate(sp["sections"]) for ci, (c, f) in enumerate(cmds)]
     any_unspec = any(c[0] == "unspecified" for _, _, c, _ in flat)
@@ -1702,7 +1706,7 @@ def correspondence(rep, rng, tier, streams, exprs, model_ok, mout, g):
         cases.append(dict(stream="token sequences through the precedence parser", kind="tokens",
                           text=f"options {{\n    v1 = {text};\n}}\nsection (0) {{\n}}\n", extern=[], coq=f"run_tokens [] {toks}"))
     for kind, text in UNSUPPORTED:
-        coq = f"vres (fun _ => VInt 0) (reduce_unsupported {kind})" if kind != "syntax" else "VErr 1%N"
+        coq = f"vres (fun _ => VInt 0) (unsupported_outcome {kind})" if kind != "syntax" else "VErr 1%N"
         cases.append(dict(stream="unsupported constructs", kind="unsupported", ukind=kind, text=text, extern=[], coq=coq))
 
     files = {}
@@ -1723,8 +1727,7 @@ def correspondence(rep, rng, tier, streams, exprs, model_ok, mout, g):
     else:
         rep.obligation("correspondence:model builds", False, mout[-1500:])
 
-    ndis, nunmod, nrepaired = 0, 0, 0
-    repaired_classes = {}
+    ndis, nunmod = 0, 0
     per_stream = {}
     for idx, (c, ir) in enumerate(zip(cases, results)):
         st = per_stream.setdefault(c["stream"], dict(n=0, accepted=0, distinct=set(), samples=[], oracle_checked=0, cmds=0))
@@ -1747,29 +1750,14 @@ def correspondence(rep, rng, tier, streams, exprs, model_ok, mout, g):
                 dis = compare_model(ir, mv)
             for hit in hits:
                 item, feats, msg = hit[0], hit[1], hit[2]
-                loc = hit[3] if len(hit) > 3 else None
-                feats = set(feats) | ({"strings-on-one-line"} if two_strings else set())
-                faithful = mv is not None and (dis is None or (loc is not None and item_agrees_with_model(loc, ir, mv)))
-                if not feats:
-                    sig = f"bd:unexpected:{item}"
-                elif feats == {"strings-on-one-line"}:
-                    sig = "bd:strings-on-one-line"
-                elif faithful and "strings-on-one-line" not in feats:
-                    sig = "bd:" + "+".join(sorted(feats))          # SPSDK behaves exactly as the faithful model of the listed defect
-                else:
-                    sig = f"bd:unexpected-with:{'+'.join(sorted(feats))}:{item}"
+                feats = set(feats) | ({"quoted-literals-on-one-line"} if two_strings else set())
+                # the class of repaired defect the case exercises goes into the signature: it tells which of them returned
+                sig = ("bd:" + "+".join(sorted(feats)) + ":" + item) if feats else f"bd:unexpected:{item}"
                 rep.failing(sig, "SPSDK does not give this BD program its specified meaning: " + msg,
                             {"kind": "impl-oracle", "signature": sig, "bd_text": c["text"], "extern": c["extern"],
                              "files": {n: bytes(d).hex() for n, d in c["program"]["files"].items()},
                              "spsdk_parse": ir["parse"], "spsdk_load": ir["load"], "message": msg,
                              "replay": "BDParser().parse(bd_text, extern) then BootImageV21.load_from_config(cfg, ...)"})
-            if dis not in (None, "unmodelled"):
-                if two_strings:
-                    dis = None           # lexer-level class (C19-F6): the AST-level model does not see the text
-                elif allf and not hits:
-                    nrepaired += 1       # known class, SPSDK now meets the specification: an upstream repair, not a violation
-                    repaired_classes[tuple(sorted(allf))] = repaired_classes.get(tuple(sorted(allf)), 0) + 1
-                    dis = None
         elif c["kind"] == "tokens":
             parse = ir["parse"]
             if mv is not None:
@@ -1787,13 +1775,15 @@ def correspondence(rep, rng, tier, streams, exprs, model_ok, mout, g):
         else:
             refused = isinstance(ir["parse"], list) or (isinstance(ir["load"], list) and ir["load"][:1] == ["e"])
             if not refused:
-                sig = f"bd:unsupported-accepted:{c['ukind']}"
+                sig = f"bd:unsupported-accepted:{c['ukind']}"          # U_section_options here = C19-F7 returned
                 rep.failing(sig, f"an unsupported construct ({c['ukind']}) is not refused: " + c["text"].replace("\n", " "),
                             {"kind": "impl-oracle", "signature": sig, "bd_text": c["text"], "spsdk_parse": ir["parse"], "spsdk_load": ir["load"]})
             if mv is not None and c["ukind"] != "syntax":
                 m_refused = mv[0] == "e"
-                if m_refused != isinstance(ir["parse"], list) or (m_refused and mv[1] != ir["parse"][1]):
-                    dis = f"unsupported construct {c['ukind']}: SPSDK {ir['parse'] if isinstance(ir['parse'], list) else 'accepted'} model {mv}"
+                stage = ir["parse"] if isinstance(ir["parse"], list) else ir["load"]       # section options are refused by load_from_config
+                kind = stage[1] if (isinstance(stage, list) and stage[:1] == ["e"]) else None
+                if m_refused != refused or (m_refused and mv[1] != kind):
+                    dis = f"unsupported construct {c['ukind']}: SPSDK {stage if refused else 'accepted'} model {mv}"
         if dis == "unmodelled":
             nunmod += 1
         elif dis:
@@ -1804,9 +1794,6 @@ def correspondence(rep, rng, tier, streams, exprs, model_ok, mout, g):
                 with open(os.path.join(vlib.VERIF, "replays", f"{PID}-first-disagreement.json"), "w") as f:
                     json.dump({"property": PID, "kind": "model-vs-implementation", "what": dis, "bd_text": c["text"], "extern": c["extern"],
                                "spsdk_parse": ir["parse"], "spsdk_load": ir["load"]}, f, indent=1, default=str)
-    for cls, n in sorted(repaired_classes.items()):
-        vlib.log(f"  note: {n} programs of the known finding class {list(cls)} meet the specification although the (old) faithful model "
-                 "differs: the defect looks repaired upstream; the model / *_refuted theorem of that class should be flipped")
     if model_vals is not None:
         rep.obligation("correspondence:model=implementation on every generated program (configuration, commands, error class)",
                        ndis == 0, f"{ndis} disagreements (first one in replays/{PID}-first-disagreement.json)" if ndis else "")
@@ -1826,31 +1813,7 @@ def correspondence(rep, rng, tier, streams, exprs, model_ok, mout, g):
         assumptions=["identifiers are defined once and before use (the quantifier of the property)", "shift counts below 4096",
                      "quotient / remainder of negative operands: either floor or truncation is accepted by the oracle",
                      "BD text is ASCII; at most one string literal per line in the main streams (C19-F6 otherwise)"],
-        extra_cov={"unmodelled_cases": nunmod, "known_class_cases_meeting_spec": nrepaired})
-
-
-def check_alt_theorem(rep, name, deps_ok):
-    """Compile tools/props/c19_alt/<name>.v (statement + proof of the repaired world) in coq/Cases."""
-    src = os.path.join(os.path.dirname(os.path.abspath(__file__)), "c19_alt", name + ".v")
-    if not deps_ok:
-        rep.obligation(f"theorem:{name}", False, "dependencies did not build")
-        return
-    dst_dir = os.path.join(vlib.COQ, "Cases")
-    os.makedirs(dst_dir, exist_ok=True)
-    base = f"c19alt_{name}"
-    shutil.copy(src, os.path.join(dst_dir, base + ".v"))
-    ok, out = vlib.coqc(f"Cases/{base}.v", timeout=600)
-    detail = out
-    if ok:
-        ass = vlib.parse_assumptions(out)
-        if not ass or not all(c for c, _ in ass):
-            ok, detail = False, "not closed under the global context: " + out[-500:]
-    for ext in (".v", ".vo", ".vok", ".vos", ".glob"):
-        try:
-            os.remove(os.path.join(dst_dir, base + ext))
-        except FileNotFoundError:
-            pass
-    rep.obligation(f"theorem:{name}", ok, detail)
+        extra_cov={"unmodelled_cases": nunmod})
 
 
 def _clean_work():
@@ -1889,18 +1852,8 @@ def _run(rep, rng, tier):
         rep.obligation("translate:sly_bd_parser.py+sly_bd_lexer.py+sb_21_helper.py->Gen/GenBd.v", False, repr(ex))
     # (P) proofs
     model_ok, mout = vlib.coq_make(["Model/BdModel.vo"])
-    repaired = repaired_findings(tables) if tables else set()
-    theorems, deps, alts = list(THEOREMS), ["Proofs/BdProofs.vo", "Proofs/BdF4Proofs.vo"], []
-    for fid, (refuted, proof_vo, full) in sorted(TABLE_FINDINGS.items()):
-        if fid in repaired:
-            alts.append((fid, full))
-        else:
-            theorems.append(refuted)
-            deps.append(proof_vo)
-    built = vlib.check_theorems(rep, PID, theorems, deps)
-    for fid, full in alts:
-        vlib.log(f"  note: the tables extracted from the source show {fid} repaired: proving {full} instead of its refutation")
-        check_alt_theorem(rep, full, built or model_ok)
+    theorems = list(THEOREMS)
+    built = vlib.check_theorems(rep, PID, theorems, ["Proofs/BdProofs.vo"])
     vlib.audit(rep)
     if tier == "thorough" and built and hasattr(vlib, "coqchk"):
         vlib.coqchk(rep, PID, theorems)
